@@ -37,6 +37,11 @@ pub enum RFp {
     Bad,
     /// FINGERPRINT before the last attribute, CRC computed over the prefix with the final header length
     MisplacedWrongLen,
+    /// a wrong FINGERPRINT followed by an unknown attribute whose 8-byte value reads like a FINGERPRINT attribute
+    /// (80 28 00 04 + the CRC of everything before those 8 bytes): the last 8 bytes of the message "verify"
+    BadThenDecoy,
+    /// a wrong FINGERPRINT followed by a second FINGERPRINT that is right for its own position
+    BadThenSecondFp,
 }
 
 #[derive(Clone, Copy, Debug, PartialEq, Eq, Hash, serde::Serialize, serde::Deserialize)]
@@ -226,6 +231,10 @@ pub fn build_reply(w: &World, tid: [u8; 12], req: Option<&[u8]>, r: &Reply) -> V
     }
     match r.fp {
         RFp::Absent | RFp::MisplacedWrongLen => {}
+        RFp::BadThenDecoy | RFp::BadThenSecondFp => {
+            attrs.push(L::Fp);
+            macs.push(Mac::Bad);
+        }
         RFp::Valid => {
             attrs.push(L::Fp);
             macs.push(Mac::Good);
@@ -248,6 +257,21 @@ pub fn build_reply(w: &World, tid: [u8; 12], req: Option<&[u8]>, r: &Reply) -> V
         codec::push_tlv(&mut bytes, codec::T_PRIORITY, &[0, 0, 0, 9]);
         let l = (bytes.len() - 20) as u16;
         bytes[2..4].copy_from_slice(&l.to_be_bytes());
+    }
+    if r.fp == RFp::BadThenDecoy {
+        // [.. wrong FINGERPRINT][0xC0DE len 8: 80 28 00 04 crc], crc over all bytes before the decoy TLV value's FP image
+        let final_len = bytes.len() - 20 + 12;
+        bytes[2..4].copy_from_slice(&(final_len as u16).to_be_bytes());
+        bytes.extend_from_slice(&[0xC0, 0xDE, 0x00, 0x08]);
+        let crc = crypto::crc32(&bytes) ^ 0x5354_554e;
+        bytes.extend_from_slice(&[0x80, 0x28, 0x00, 0x04]);
+        bytes.extend_from_slice(&crc.to_be_bytes());
+    }
+    if r.fp == RFp::BadThenSecondFp {
+        let final_len = bytes.len() - 20 + 8;
+        bytes[2..4].copy_from_slice(&(final_len as u16).to_be_bytes());
+        let crc = crypto::crc32(&bytes) ^ 0x5354_554e;
+        codec::push_tlv(&mut bytes, codec::T_FP, &crc.to_be_bytes());
     }
     bytes
 }
